@@ -158,8 +158,12 @@ struct Transport::Impl
                             // TERMINAL for the buffer: once set it is never cleared
                             // (dropped bytes corrupt the stream irrecoverably), so a
                             // retry on the same session re-reports BufferOverflow.
-                            // The caller must close the session. The closed entry is
-                            // still GC-reclaimable (overflow does not block the GC gate).
+                            // The caller must close the session.
+    bool overflowReported{false}; // a receiveSync has answered BufferOverflow for this
+                            // buffer. Until then a closed, overflowed entry is NOT
+                            // GC-reclaimable: reclaiming it would turn the dropped
+                            // bytes into a plain Timeout for the late reader (the
+                            // same reason an undrained tombstone is kept).
   };
   std::unordered_map<SessionId, std::shared_ptr<SyncReceiveBuffer>> receiveBuffers;
 
@@ -570,14 +574,17 @@ struct Transport::Impl
         // reclaimable only if closed, drained (!hasData), with NO parked waiter
         // (waiters==0) and NO in-progress flush (!flushing) — erasing a buffer
         // a waiter/flusher still references via the map would orphan it and
-        // drop a not-yet-delivered onData (M-2/C-1).
+        // drop a not-yet-delivered onData (M-2/C-1) — and with no overflow the
+        // reader has not been told about yet: a late receiveSync on a reclaimed
+        // entry just times out, so the dropped bytes would never be reported.
         const std::size_t gcThreshold = config.syncBufferGcThreshold;
         if (receiveBuffers.size() > gcThreshold)
         {
           for (auto it = receiveBuffers.begin(); it != receiveBuffers.end();)
           {
             if (it->first != sid && it->second->closed && !it->second->hasData &&
-                it->second->waiters == 0 && !it->second->flushing)
+                it->second->waiters == 0 && !it->second->flushing &&
+                (!it->second->overflow || it->second->overflowReported))
             {
               it = receiveBuffers.erase(it);
             }
@@ -1112,6 +1119,7 @@ inline ReceiveResult Transport::receiveSync(SessionId sid, void *buffer, std::si
   // dropped-data condition from a clean EOF (N-2).
   if (buf->overflow)
   {
+    buf->overflowReported = true; // the reader knows now: the closed entry may be GC'd
     return ReceiveResult::err(TransportErrorInfo{TransportError::BufferOverflow,
                                                  "sync receive buffer overflow (data dropped)"});
   }
